@@ -429,6 +429,28 @@ Fixpoint find_meth (tbl : list meth) (n : string) : option meth :=
   | m :: r => if String.eqb (m_name m) n then Some m else find_meth r n
   end.
 
+(* after a statement whose effect on the control flow is not analysed (the caller may return early, with or without
+   an error) a later guard no longer proves that the call fails; a later backend mention stays reachable *)
+Definition demote (o : outcome) : outcome := match o with OBackend => OBackend | _ => OUnknown end.
+
+(* A method is INERT when nothing in it depends on the closed flag or on the archive: no guard, no backend mention, no
+   escape of the receiver, and only calls of inert methods (PathSeparator, GetType, ConvertFilePath, ...; a name that is
+   not a method of the table is a function-valued field such as pathConverter).  A statement whose only receiver calls
+   are inert behaves identically on an open and on a closed file system, exactly like the statements without any
+   receiver mention, which the translator drops. *)
+Fixpoint inert (tbl : list meth) (fuel : nat) (n : string) {struct fuel} : bool :=
+  match fuel with
+  | O => false
+  | S f => match find_meth tbl n with
+           | None => true
+           | Some m => forallb (fun a => match a with
+                                         | ARet => true
+                                         | ACall k | ACallProp k | ARetCall k => inert tbl f k
+                                         | _ => false
+                                         end) (m_body m)
+           end
+  end.
+
 (* what a call does once Close() has set the flag (resource.go:23-34): the guard (files.go:122-127) fires.
    OBackend = a statement mentioning fs.vfs is reached; OUnknown = the table cannot tell whether the call fails. *)
 Fixpoint run_closed (tbl : list meth) (fuel : nat) (body : list astmt) {struct fuel} : outcome :=
@@ -443,9 +465,10 @@ Fixpoint run_closed (tbl : list meth) (fuel : nat) (body : list astmt) {struct f
        | AGuard GOther :: _ => OFailOther
        | ACallProp n :: r => match call n with OUnknown => go r | o => o end
        | ARetCall n :: _ => call n
-       | ACall n :: r => match call n with OBackend => OBackend | _ => go r end
+       | ACall n :: r => if inert tbl f n then go r
+                         else match call n with OBackend => OBackend | _ => demote (go r) end
        | ABackend :: _ => OBackend
-       | AEscape :: r => go r
+       | AEscape :: r => demote (go r)
        | ARet :: _ => OUnknown
        end) body
   end.
@@ -463,7 +486,8 @@ Fixpoint touches (tbl : list meth) (fuel : nat) (body : list astmt) {struct fuel
                       end) body
   end.
 
-Definition fuel0 : nat := List.length methods.
+(* call-chain depth explored; the longest chain in the package is below 12 (exhaustion is conservative: OUnknown / "touches") *)
+Definition fuel0 : nat := 24.
 Definition closed_outcome (n : string) : outcome :=
   match find_meth methods n with Some m => run_closed methods fuel0 (m_body m) | None => OUnknown end.
 Definition needs_archive (n : string) : bool :=
@@ -482,6 +506,8 @@ Definition indirect_methods : list string :=
     "ChangeOwnershipRecursively"; "ChmodRecursively"; "ChownRecursively";    (* IsFile's error dropped, then Walk *)
     "RemoveWithPrivileges";                                                  (* error inspected with Any(...) *)
     "Copy"; "CopyWithContext"; "CopyWithContextAndExclusionPatterns";        (* receiver handed to CopyBetweenFS... *)
+    "LsRecursive"; "LsRecursiveWithExclusionPatterns"; "LsRecursiveWithExclusionPatternsAndLimits";
+                                   (* a closure handing the receiver to FileTreeDepth is DEFINED before the guarded Walk *)
     "Unzip"; "UnzipWithContext"; "UnzipWithContextAndLimits";                (* receiver handed to newZipReader *)
     "TempDirectory"; "CurrentDirectory"; "NewRemoteLockFile"; "ExcludeAll"; "ConvertFilePath"; "Close" ].
 (* Methods in which a mention of fs.vfs is not dominated by the guard, with the reason it is harmless when closed:
